@@ -73,13 +73,14 @@ def stats(out: str) -> dict:
 def tuples(out: str, tag: str):
     """Yield the text of every printed tuple that starts with <<"tag", ... (bracket matching,
     because TLC wraps long values over several lines)."""
-    start = '<<"' + tag + '"'
+    pat = re.compile(r'<<\s*"' + re.escape(tag) + '"')
     i = 0
     n = len(out)
     while True:
-        j = out.find(start, i)
-        if j < 0:
+        m = pat.search(out, i)
+        if not m:
             return
+        j = m.start()
         depth = 0
         k = j
         instr = False
@@ -101,5 +102,5 @@ def tuples(out: str, tag: str):
                 if depth == 0:
                     break
             k += 1
-        yield " ".join(out[j:k + 1].split())
+        yield re.sub(r'<<\s+', '<<', " ".join(out[j:k + 1].split()))
         i = k + 1
